@@ -2019,7 +2019,17 @@ class C08(Property):
             'uploads through INITIALIZING / UPLOADING / PAUSED / COMPLETE / FAILED, user abort / re-queue, and management '
             'cycles — also cycles SUSPENDED at a real await of the management job (the user-tracking calls of '
             'manage_user_tracking, or a state transition gathered by manage_shares_changed) with further configuration '
-            'changes applied during the suspension, then cycles until the queue is idle; all from VERIF_SEED. Non-trivial: an upload was created, a request was refused, and a management '
+            'changes applied during the suspension, then cycles until the queue is idle. LIVE family (3 generators: random '
+            'trees, the state grid, short directed histories; 900 quick / 9000 thorough): the real UserManager with its '
+            'polling job and the transfer manager\'s real management task run under virtual time, the harness never calls '
+            'a cycle; configuration changes go through the settings — settings.users.friends / .blocked assigned or '
+            'mutated IN PLACE (announced by the user manager\'s own poll), settings.shares.directories edited (entries '
+            'dropped — one, all —, added, re-ordered, mode changed, users lists assigned or mutated in place) + '
+            'load_from_settings(), SharesManager.scan() — or through the shares API, update_shared_directory also with '
+            'the caller\'s own, edited list object; interleaved with requests, state methods, user abort / re-queue and '
+            'waits of 0 .. 3 virtual seconds; two probes (management queue get(), poll job entry) give the instants at '
+            'which the real job / poll ran and the model is fed `cycle` / `poll` exactly there; judged at every wait >= 2 s. '
+            'All from VERIF_SEED. Non-trivial: an upload was created, a request was refused, and a management '
             'cycle aborted or re-queued an upload; distinct = distinct canonical case')
     assumptions = [
         'alphabet as in C07 (str.lower one-to-one, self-checked); user names are non-empty and distinct; no alias '
@@ -2029,13 +2039,22 @@ class C08(Property):
         'state objects) — what is sent on file connections is not observed',
         'FriendListChangedEvent / BlockListChangedEvent are emitted by the harness the way UserManager._management_job '
         'does after it noticed the settings change (the polling delay itself is not part of the property)',
-        'target tree = /repo + fixes/C08-excluded-phrase-case.patch',
+        'target tree = /repo + fixes/C08-excluded-phrase-case.patch + fixes/C08-reload-announces-removed.patch',
+        'live family: a change of settings.shares.directories is complete when load_from_settings() has been called (there '
+        'is no polling of that setting); add_shared_directory / load_from_settings and the scan_directory_files calls that '
+        'populate the new directories are one step (the index is complete before the cycle the addition requested runs: '
+        'populating the index is not a configuration change — remark: scan_directory_files alone announces nothing, an '
+        'upload aborted for "File not shared" is queued again after a re-share only if the cycle runs after the scan or '
+        'scan() is used); settings.shares.directories names a path at most once; the generated cases do not change a polled '
+        'list (friends / blocked) twice within one polling interval (known finding C08-settings-flip-within-poll-interval, '
+        'witness W_FLIP)',
     ]
     modelled = ('is_directory_locked, query (excluded phrases, visible/locked split) on the C07 query/index models, '
                 'create_shares_reply, create_directory_reply, get_shared_item_cache, _query_shares_and_reply, '
                 '_on_peer_shares_request, _on_peer_directory_contents_req, _on_peer_transfer_queue, '
                 '_on_peer_transfer_request (upload direction), _add_upload, _evaluate_aborted_state, manage_shares_changed, '
-                'the SHARES_CHANGE flag of _management_job; state methods through the generated transfer table; '
+                'the SHARES_CHANGE flag of _management_job; load_from_settings (fixed), scan, the user manager\'s polling job '
+                '(UserManagementContext copies, the two events); state methods through the generated transfer table; '
                 'condition order, skipped / re-queued states, fail_reason_map, blocking flags per gate regenerated by AST. '
                 'Not modelled: _initialize_upload/_upload_file (serving), file sizes/attributes, vanished files, '
                 'alias collisions, the atomicity of _add_upload across its awaits')
@@ -2153,7 +2172,8 @@ class C08(Property):
         return _monitor(case, _eval_case(case))
 
     def known_witnesses(self):
-        return [('C08-directory-reply-ignores-lock', W_DIRREPLY)]
+        # (each is replayed only while known_findings.json lists its signature)
+        return [('C08-directory-reply-ignores-lock', W_DIRREPLY), ('C08-settings-flip-within-poll-interval', W_FLIP)]
 
 
 PROPERTY = C08()
